@@ -148,7 +148,15 @@ def run_model(exe, reqs):
 # Go driver
 
 
-def run_drive(exe, args, inp=None, timeout=3000):
+REINIT_WHAT = ("after the public state-changing APIs of transport/serialize have been used (InitMsgpackHandle, "
+               "MsgpackRegisterExtension for a harness-only type, deregistration, InitMsgpackHandle and registration again)")
+
+
+def run_drive(exe, args, inp=None, timeout=3000, state="fresh"):
+    """state: 'fresh' = serializers as after package init; 'reinit' = after the exported re-initialisation /
+    extension-registration functions have been exercised (c14drive -state reinit)."""
+    if state != "fresh":
+        args = args[:1] + ["-state", state] + args[1:]
     p = subprocess.run([exe] + args, input=inp, stdout=subprocess.PIPE, stderr=subprocess.PIPE, text=True, errors="replace", timeout=timeout)
     cases, stats = [], {}
     for line in p.stdout.splitlines():
@@ -158,8 +166,12 @@ def run_drive(exe, args, inp=None, timeout=3000):
         m = re.match(r"^(\w) (\S+) (\S+) (\S*) \| M (.*?) \| D (.*?) \| V (.*)$", line)
         if not m:
             continue
-        cases.append(dict(kind=m.group(1), id=m.group(2), fmt=m.group(3), hex=m.group(4) if m.group(4) != "-" else None,
-                          msg=m.group(5), D=m.group(6), V=m.group(7)))
+        c = dict(kind=m.group(1), id=m.group(2), fmt=m.group(3), hex=m.group(4) if m.group(4) != "-" else None,
+                 msg=m.group(5), D=m.group(6), V=m.group(7), state=state)
+        if c["kind"] == "Z":                 # the state APIs themselves panicked
+            stats["state_api_panic"] = c["D"]
+            continue
+        cases.append(c)
     if p.returncode != 0:
         # the driver itself died: a runtime fatal error (not a recoverable panic)
         stats["driver_died"] = "rc=%d %s" % (p.returncode, p.stderr[-1500:])
@@ -263,16 +275,23 @@ class Run:
 
     def report(self, signature, what, case, extra=None):
         """a concrete input on which the property fails (or model and code disagree)"""
+        state = case.get("state") or "fresh"
         if signature in self.reported:
             self.count("further inputs of an already reported signature")
             return
         self.reported.add(signature)
+        if state != "fresh" and signature != JSON_FLOAT_SIG:
+            # seen only with the serializers in the re-initialised state (the fresh-state streams run first
+            # and report a state-independent failure under the plain signature)
+            self.reported.add(signature + "@after-reinit")
+            signature = signature + "@after-reinit"
+            what = what + " — " + REINIT_WHAT
         kind = case.get("kind")
         obj = dict(property=PID, signature=signature, what=what, fmt=case.get("fmt"), hex=case.get("hex"),
                    message=case.get("msg") if (kind in ("G", "Q", "S") and case.get("msg") not in (None, "-")) else None,
                    value=case.get("msg") if (kind == "I" and not str(case.get("msg")).startswith("nested")) else None,
                    implementation=dict(Deserialize=case.get("D"), DeserializeDataItem=case.get("V")),
-                   seed=common.seed(), repo=common.REPO)
+                   state=state, seed=common.seed(), repo=common.REPO)
         if extra:
             obj.update(extra)
         self.findings.append(obj)
@@ -404,7 +423,7 @@ class Run:
         # direction B: model bytes -> implementation
         if back:
             inp = "".join("%d %s %s\n" % (i, c["fmt"], mh) for i, (c, mh) in enumerate(back))
-            rcases, _ = run_drive(self.drive, ["deser"], inp=inp)
+            rcases, _ = run_drive(self.drive, ["deser"], inp=inp, state=back[0][0].get("state") or "fresh")
             rreq = []
             for (c, mh), r in zip(back, rcases):
                 gk, gp = go_class(r["D"])
@@ -476,7 +495,7 @@ class Run:
                 back.append((c, enc[3:]))
         if back:
             inp = "".join("%d %s %s\n" % (i, c["fmt"], mh) for i, (c, mh) in enumerate(back))
-            rcases, _ = run_drive(self.drive, ["deser"], inp=inp)
+            rcases, _ = run_drive(self.drive, ["deser"], inp=inp, state=back[0][0].get("state") or "fresh")
             rreq = []
             for (c, mh), r in zip(back, rcases):
                 vk, vp = go_class(r["V"])
@@ -682,7 +701,10 @@ def replay_main(path, drive, model):
         print("  no concrete failing input was recorded: %s" % obj.get("broken"))
         return 1
     if fmt:
-        rcases, _ = run_drive(drive, ["deser"], inp="0 %s %s\n" % (fmt, hx))
+        state = obj.get("state") or "fresh"
+        if state != "fresh":
+            print("  serializer state: %s — %s" % (state, REINIT_WHAT))
+        rcases, _ = run_drive(drive, ["deser"], inp="0 %s %s\n" % (fmt, hx), state=state)
         r = rcases[0]
         ans = run_model(model, ["des %s %s" % (fmt, hx), "desx %s %s" % (fmt, hx), "dec %s %s" % (fmt, hx), "diag %s %s" % (fmt, hx)])
         print("  input (%s): %s" % (fmt, hx))
@@ -819,22 +841,26 @@ def main(tier, replay):
     gold_path = os.path.join(common.VERIF, "corpus", PID, "golden.txt")
     if os.path.exists(gold_path):
         want = [l.rstrip("\n") for l in open(gold_path) if l.startswith("S ")]
-        gcur, _ = run_drive(drive, ["golden"])
-        got = ["S %s %s %s | M %s | D %s | V %s" % (c["id"], c["fmt"], c["hex"] if c["hex"] is not None else "-", c["msg"], c["D"], c["V"]) for c in gcur]
-        run.evaluations += len(got)
-        run.count("golden: lines compared", len(got))
-        for i, w in enumerate(want):
-            g = got[i] if i < len(got) else "<missing>"
-            if g != w:
-                cur = gcur[i] if i < len(gcur) else dict(fmt=None, hex=None, msg="-", D="", V="")
-                run.report("golden:wire-format-changed",
-                           "a fixed message is serialized / deserialized differently from the reference wire format (corpus/C14/golden.txt line %d)" % (i + 1),
-                           cur, dict(expected_line=w[:1500], actual_line=g[:1500]))
-                break
-        else:
-            if len(got) != len(want):
-                run.report("golden:wire-format-changed", "number of golden lines differs: %d vs %d (message types added or removed)" % (len(got), len(want)),
-                           dict(fmt=None, hex=None, msg="-", D="", V=""))
+        for gstate in ("fresh", "reinit"):
+            gcur, gst = run_drive(drive, ["golden"], state=gstate)
+            if gst.get("state_api_panic"):
+                run.report("panic:state-api", "the exported re-initialisation / extension-registration functions panic: " + gst["state_api_panic"][:200],
+                           dict(fmt="msgpack", hex=None, msg="-", D=gst["state_api_panic"], V="", state=gstate))
+            got = ["S %s %s %s | M %s | D %s | V %s" % (c["id"], c["fmt"], c["hex"] if c["hex"] is not None else "-", c["msg"], c["D"], c["V"]) for c in gcur]
+            run.evaluations += len(got)
+            run.count("golden (%s state): lines compared" % gstate, len(got))
+            for i, w in enumerate(want):
+                g = got[i] if i < len(got) else "<missing>"
+                if g != w:
+                    cur = gcur[i] if i < len(gcur) else dict(fmt=None, hex=None, msg="-", D="", V="", state=gstate)
+                    run.report("golden:wire-format-changed",
+                               "a fixed message is serialized / deserialized differently from the reference wire format (corpus/C14/golden.txt line %d)" % (i + 1),
+                               cur, dict(expected_line=w[:1500], actual_line=g[:1500]))
+                    break
+            else:
+                if len(got) != len(want):
+                    run.report("golden:wire-format-changed", "number of golden lines differs: %d vs %d (message types added or removed)" % (len(got), len(want)),
+                               dict(fmt=None, hex=None, msg="-", D="", V="", state=gstate))
     # 2. corpus
     corp = load_corpus()
     if corp:
@@ -849,28 +875,40 @@ def main(tier, replay):
     common.info("C14: table %.1fs" % t.s())
     # 4. structured random messages
     gcases, gstats = [], {}
-    done, k = 0, 0
-    while done < n_msg:                       # in batches: bounded memory
-        n = min(2400, n_msg - done)
-        gc, gs = run_drive(drive, ["gen", "-seed", str(common.seed() + 7919 * k), "-n", str(n)])
-        run.check_messages(gc)
-        merge_stats(gstats, gs)
-        if k == 0:
-            gcases = gc[:600]                 # kept for samples / the in-kernel sample
-        done += n
-        k += 1
+    k = 0
+    n_re = n_msg // 3                          # a third of the messages with the serializers re-initialised
+    for mstate, quota in (("fresh", n_msg - n_re), ("reinit", n_re)):
+        done = 0
+        while done < quota:                   # in batches: bounded memory
+            n = min(2400, quota - done)
+            gc, gs = run_drive(drive, ["gen", "-seed", str(common.seed() + 7919 * k), "-n", str(n)], state=mstate)
+            run.check_messages(gc)
+            merge_stats(gstats, gs)
+            run.count("messages generated in the %s state" % mstate, len(gc))
+            if k == 0:
+                gcases = gc[:600]             # kept for samples / the in-kernel sample
+            done += n
+            k += 1
     run.dist["messages"] = gstats
+    run.dist["serializer_states"] = dict(
+        fresh="as after package initialisation",
+        reinit=REINIT_WHAT + "; run for: golden wire format, 1/3 of the messages, 1/4 of the values, 1/8 of the mutated byte strings "
+               "(JSON and CBOR have no exported state-changing function)")
     common.info("C14: messages %.1fs" % t.s())
     # 5. payload values
     istats = {}
-    done, k = 0, 0
-    while done < n_val:
-        n = min(12000, n_val - done)
-        ic, is_ = run_drive(drive, ["values", "-seed", str(common.seed() + 104729 * k), "-n", str(n)])
-        run.check_values(ic)
-        merge_stats(istats, is_)
-        done += n
-        k += 1
+    k = 0
+    n_re = n_val // 4
+    for vstate, quota in (("fresh", n_val - n_re), ("reinit", n_re)):
+        done = 0
+        while done < quota:
+            n = min(12000, quota - done)
+            ic, is_ = run_drive(drive, ["values", "-seed", str(common.seed() + 104729 * k), "-n", str(n)], state=vstate)
+            run.check_values(ic)
+            merge_stats(istats, is_)
+            run.count("values generated in the %s state" % vstate, len(ic))
+            done += n
+            k += 1
     run.dist["values"] = istats
     common.info("C14: values %.1fs" % t.s())
     # 6. malformed / mutated byte strings
@@ -880,7 +918,11 @@ def main(tier, replay):
     k = 0
     while done < n_mut:
         n = min(step, n_mut - done)
-        xcases, xstats = run_drive(drive, ["mutate", "-seed", str(common.seed() * 1000003 + k), "-n", str(n)])
+        xstate = "reinit" if done >= n_mut - n_mut // 8 else "fresh"
+        if xstate == "fresh":
+            n = min(n, n_mut - n_mut // 8 - done)
+        xcases, xstats = run_drive(drive, ["mutate", "-seed", str(common.seed() * 1000003 + k), "-n", str(n)], state=xstate)
+        run.count("mutated byte strings in the %s state" % xstate, len(xcases))
         if xstats.get("driver_died"):
             run.report("fatal:" + xstats["driver_died"][:60], "the process running Deserialize died (fatal error, not a recoverable panic)",
                        dict(fmt=None, hex=None, D=xstats["driver_died"], V=""))
